@@ -152,7 +152,8 @@ CLAIMED = {
             "(which may record a kid) dominates the encoding of the protected header; encode_int / ECDSA sign / verify use ceil(bits / 8) octets "
             "from the same curve_key_size with left padding (P-521 = 66, which the environment's suite cannot run); detaching replaces only "
             "segment 1 / deletes only 'payload' from a deep copy; the attach/detach pattern, parsed with re._parser, is an anchored match of "
-            "exactly the 65 URL-safe characters. Not decided (the bulk): equality of the recovered payload / header for every payload, key "
+            "exactly the 65 URL-safe characters; the dict that is encoded is the object key selection writes the kid into; optional JSON members are "
+            "written when present and one predicate on `protected` governs signing input and output. Not decided (the bulk): equality of the recovered payload / header for every payload, key "
             "and header value - value-level.",
             "verification side: C01", "5/C03"),
     "C04": ("static analysis: CFG dominance of the mode-restriction guards, mirror comparison of the zip conditions, literal member-name sets "
@@ -162,7 +163,9 @@ CLAIMED = {
             "to what enc.encrypt receives and decompression to what enc.decrypt returns under the identical condition `'zip' in obj.protected`; "
             "the member names written by represent_* equal those read by extract_* and RFC 7516 7.2, compact is five segments in the RFC order on "
             "both sides; Recipient.headers merges protected -> unprotected -> per-recipient into a fresh dict and add_header writes protected for "
-            "compact, per-recipient otherwise. Not decided: plaintext equality over all alg x enc x zip x curve x length classes.",
+            "compact, per-recipient otherwise; the JSON aad member takes part under one predicate on all three sides; optional JSON members are written "
+            "when present; the DEF completion gate and raw-DEFLATE framing rules of C17 hold (a plaintext of exactly the limit round-trips). "
+            "Not decided: plaintext equality over all alg x enc x zip x curve x length classes.",
             "RFC 7516 section 7", "5/C04"),
     "C07": ("static analysis: folded JWS parameter table vs RFC 7518/8037/8812, primitive call-shape table, byte-term of the signing input at "
             "every sign site, plus the C01 received-octets and C03 width rules",
@@ -234,9 +237,12 @@ def main() -> None:
                               "slices, constant folding of models and registries, effect and exception-flow analysis",
         }],
         "checks": checks,
-        "notes": "Static analysis only: every verdict is computed from the source text of /repo's current working tree; joserfc is "
-                 "never imported or executed by a check. Exit 0 held (possibly with KNOWN-FINDING lines), 1 VIOLATION, 2 ANALYSIS-ERROR "
-                 "(tool failure / vanished anchor / instance count below the hand-confirmed minimum).",
+        "notes": "Static analysis only: every verdict is computed from the source text of /repo's current working tree (after an exact "
+                 "AST canonicalisation, jv/canon.py); joserfc is never imported or executed by a check. Exit 0 held (possibly with "
+                 "KNOWN-FINDING lines), 1 VIOLATION, 2 ANALYSIS-ERROR (tool failure / vanished anchor / instance count below the "
+                 "hand-confirmed minimum). The thorough tier adds informational explorations that never change the exit code: typed-vs-CHA "
+                 "call-graph comparison, the property's self-test variants and a seeded sample of behaviour-preserving rewrites, all on "
+                 "scratch copies under $TMPDIR. Tested against 80 independently seeded changes (seeded/), see DESIGN.md section 11.",
         "not_applicable": na,
     }
     with open(os.path.join(HERE, "MANIFEST.json"), "w") as fh:
